@@ -520,7 +520,11 @@ class Madgwick:
         self.gain_marg: float = kwargs.get('gain_marg', 0.041)
         self.gain: float = kwargs.get('beta')  # Setting gain with `beta` will be removed in the future.
         if self.gain is None:
-            self.gain: float = kwargs.get('gain', self.gain_imu if self.mag is None else self.gain_marg)
+            self.gain: float = kwargs.get('gain')
+        # Without an explicit gain each update method uses its own default gain
+        self._default_gain: bool = self.gain is None
+        if self._default_gain:
+            self.gain: float = self.gain_imu if self.mag is None else self.gain_marg
 
     def _assert_validity_of_inputs(self):
         """Asserts the validity of the inputs."""
@@ -634,7 +638,7 @@ class Madgwick:
                 # Objective Function Gradient
                 gradient = J.T@f                                    # (eq. 34)
                 gradient /= np.linalg.norm(gradient)
-                qDot -= self.gain*gradient                          # (eq. 33)
+                qDot -= (self.gain_imu if self._default_gain else self.gain)*gradient   # (eq. 33)
         q_new = q + qDot*dt                                         # (eq. 13)
         q_new /= np.linalg.norm(q_new)
         return q_new
@@ -723,7 +727,7 @@ class Madgwick:
                               [ 2.0*bx*qy,            2.0*bx*qz-4.0*bz*qx,  2.0*bx*qw-4.0*bz*qy,  2.0*bx*qx          ]])
                 gradient = J.T@f                                    # (eq. 34)
                 gradient /= np.linalg.norm(gradient)
-                qDot -= self.gain*gradient                          # (eq. 33)
+                qDot -= (self.gain_marg if self._default_gain else self.gain)*gradient  # (eq. 33)
         q_new = q + qDot*dt                                         # (eq. 13)
         q_new /= np.linalg.norm(q_new)
         return q_new
